@@ -443,7 +443,7 @@ def real_eviction(V, reps):
     cases = [{"id": i, "ops": [{"op": "scan", "root": W}] + q} for i in range(reps)]
     want_goto = [("conftest.py", "top_fx"), ("helpers.py", "helper_fx"), ("sub/conftest.py", "sub_fx")]
     n = 0
-    for res in C.run_harness(cases, threads=2):
+    for res in C.run_harness(cases, threads=2, timeout=300):       # a scan of 2 104 tiny files takes seconds; a hang must not take 25 min
         n += 1
         V.count()
         V.nontriv(("eviction", res["id"]))
